@@ -614,7 +614,7 @@ func runEvalDispatch(c *Ctx, r *Result, rule string) {
 		case exceptions[name] != "":
 			// check the structural premise: partialCallable.Call has a case for it
 			o.Verdict, o.Reason = Exception, "exception for "+name+": "+exceptions[name]
-			if !typeSwitchHasCase(root, "partialCallable.Call", P) {
+			if !typeSwitchHasCase(root, "partialCallable.Call", P) && !ssaAssertsType(c, "jsonata.(*partialCallable).Call", P) {
 				o.Verdict, o.Reason = Finding, "PlaceholderNode has no case in eval and partialCallable.Call does not consume it either"
 			}
 		default:
@@ -623,6 +623,21 @@ func runEvalDispatch(c *Ctx, r *Result, rule string) {
 		r.Add(o)
 	}
 	r.RequireMin(rule+" Node implementations", n, 30)
+}
+
+// ssaAssertsType: the function (or one of its closures) tests a value for dynamic type T with a
+// type switch case or a comma-ok assertion (both lower to the same instruction).
+func ssaAssertsType(c *Ctx, fn string, T types.Type) bool {
+	f := c.W.Fn(fn)
+	if f == nil {
+		return false
+	}
+	for _, ins := range instrsIn(f) {
+		if ta, ok := ins.(*ssa.TypeAssert); ok && types.Identical(ta.AssertedType, T) {
+			return true
+		}
+	}
+	return false
 }
 
 func typeSwitchHasCase(pkg *packages.Package, fn string, T types.Type) bool {
@@ -773,52 +788,92 @@ func runJSONLiterals(c *Ctx, r *Result, rule string) {
 // runArrayUnit: in evalArray the type switch on the item has an *ArrayNode case that does not
 // iterate over the value (append as a unit), and a default that flattens.
 func runArrayUnit(c *Ctx, r *Result, rule string) {
-	root := c.W.Lib["jsonata"]
 	o := Obligation{Rule: rule, Key: "jsonata.evalArray:array-literal-kept-as-unit", Fn: "jsonata.evalArray", Pos: "eval.go", Nontrivial: true}
+	f := c.W.Fn("jsonata.evalArray")
+	if f == nil {
+		r.LoseAnchor("TAB: jsonata.evalArray not found")
+		return
+	}
+	o.Pos = c.W.Pos(f.Pos())
 	o.Verdict, o.Reason = Finding, "evalArray has no *jparse.ArrayNode case that appends the nested array literal as a unit"
-	for _, file := range root.Syntax {
-		for _, d := range file.Decls {
-			fd, ok := d.(*ast.FuncDecl)
-			if !ok || fd.Name.Name != "evalArray" || fd.Body == nil {
-				continue
-			}
-			o.Pos = c.W.Pos(fd.Pos())
-			ast.Inspect(fd.Body, func(n ast.Node) bool {
-				ts, ok := n.(*ast.TypeSwitchStmt)
-				if !ok {
-					return true
-				}
-				for _, st := range ts.Body.List {
-					cc := st.(*ast.CaseClause)
-					for _, e := range cc.List {
-						t := root.TypesInfo.TypeOf(e)
-						if t == nil || !isNamed(t, "jparse", "ArrayNode") {
-							continue
-						}
-						hasLoop, hasAppend := false, false
-						for _, s := range cc.Body {
-							ast.Inspect(s, func(m ast.Node) bool {
-								switch m := m.(type) {
-								case *ast.ForStmt, *ast.RangeStmt:
-									hasLoop = true
-								case *ast.CallExpr:
-									if id, ok := m.Fun.(*ast.Ident); ok && id.Name == "append" {
-										hasAppend = true
-									}
-								}
-								return true
-							})
-						}
-						if hasAppend && !hasLoop {
-							o.Verdict, o.Reason = Discharged, "the *ArrayNode case appends the evaluated nested literal once, without iterating over it"
-						} else {
-							o.Verdict, o.Reason = Finding, "the *ArrayNode case of evalArray iterates over the nested literal (it would be flattened)"
-						}
+	// the item being evaluated and its value
+	for _, ins := range instrsIn(f) {
+		ta, ok := ins.(*ssa.TypeAssert)
+		if !ok || !ta.CommaOk || !isNamedPtr(ta.AssertedType, "jparse", "ArrayNode") {
+			continue
+		}
+		item := ta.X
+		var val ssa.Value
+		for _, i2 := range instrsIn(f) {
+			if call, ok := i2.(*ssa.Call); ok && call.Call.StaticCallee() != nil && shortFn(call.Call.StaticCallee()) == "jsonata.eval" && len(call.Call.Args) > 0 && sameNodeValue(call.Call.Args[0], item) {
+				for _, rf := range *call.Referrers() {
+					if ex, ok := rf.(*ssa.Extract); ok && ex.Index == 0 {
+						val = ex
 					}
 				}
-				return false
-			})
+			}
+		}
+		var okv ssa.Value
+		for _, rf := range *ta.Referrers() {
+			if ex, ok := rf.(*ssa.Extract); ok && ex.Index == 1 {
+				okv = ex
+			}
+		}
+		if val == nil || okv == nil {
+			continue
+		}
+		appended, iterated := false, ""
+		for _, b := range f.Blocks {
+			if !domGuard(b, func(cond ssa.Value) (int, bool) { return boolEdge(cond, okv, true) }) {
+				continue
+			}
+			for _, i2 := range b.Instrs {
+				call, ok := i2.(*ssa.Call)
+				if !ok {
+					continue
+				}
+				if bi, isB := call.Call.Value.(*ssa.Builtin); isB && bi.Name() == "append" {
+					appended = true
+					continue
+				}
+				for ai, a := range call.Call.Args {
+					if a != val {
+						continue
+					}
+					switch staticName(call) {
+					case "reflect.Value.CanInterface", "reflect.Value.Interface", "reflect.Value.IsValid":
+					default:
+						iterated = fmt.Sprintf("%s (argument %d)", call.String(), ai)
+					}
+				}
+			}
+		}
+		switch {
+		case iterated != "":
+			o.Verdict, o.Reason = Finding, "on the *ArrayNode path the value of the nested literal is handed to "+iterated+": it would be taken apart instead of being appended as a unit"
+		case appended:
+			o.Verdict, o.Reason = Discharged, "when the item is an *ArrayNode its value is appended once (v.Interface()) and never taken apart"
 		}
 	}
 	r.Add(o)
+}
+
+func isNamedPtr(t types.Type, pkg, name string) bool {
+	p, ok := t.(*types.Pointer)
+	return ok && isNamed(p.Elem(), pkg, name)
+}
+
+// sameNodeValue: a and b are the same jparse.Node value (possibly one converted to interface{}).
+func sameNodeValue(a, b ssa.Value) bool {
+	strip := func(v ssa.Value) ssa.Value {
+		for {
+			switch x := v.(type) {
+			case *ssa.ChangeInterface:
+				v = x.X
+				continue
+			}
+			return v
+		}
+	}
+	return strip(a) == strip(b)
 }
